@@ -433,6 +433,10 @@ func F2At(cfg Cfg, counts []int, min uint64, yield func(*Case)) {
 			yield(&Case{Family: "F2", Cfg: cfg, Min: min, Max: max, Refs: refs, Note: note + ",refs"})
 			yield(&Case{Family: "F2", Cfg: cfg, Min: min, Max: max, Logs: logs, Note: note + ",logs"})
 			yield(&Case{Family: "F2", Cfg: cfg, Min: min, Max: max, Refs: refs, Logs: logs, Note: note + ",both"})
+			if style == "shared" {
+				// the writer does not tie log update indices to the header limits: entries above the declared maximum
+				yield(&Case{Family: "F2", Cfg: cfg, Min: min, Max: min, Logs: logs, Note: note + ",logs-above-limits"})
+			}
 		}
 	}
 }
